@@ -30,9 +30,8 @@ Proof. rewrite in_keys_app. simpl. intros [H|[ <- |[]]]; auto. Qed.
 Lemma mark_keys p k fl x : In x (allkeys (fst (mark p k fl))) -> x = k \/ In x (allkeys p).
 Proof.
   unfold mark. destruct (reg p) as [r|] eqn:Hr.
-  - destruct (lookup k r); destruct (fl =? 0); cbn [fst]; rewrite !in_allkeys; unfold regList; cbn [reg pendF pendR]; rewrite ?Hr;
+  - destruct (lookup k r); [|destruct (fl =? 0)]; cbn [fst]; rewrite !in_allkeys; unfold regList; cbn [reg pendF pendR]; rewrite ?Hr;
       intros [H|H]; try tauto.
-    + right. left. eapply in_keys_filter. exact H.
     + apply in_keys_store in H. cbn [eKey] in H. tauto.
     + apply in_keys_store in H. cbn [eKey] in H. tauto.
   - destruct (fl =? 0); cbn [fst]; rewrite !in_allkeys; unfold regList; cbn [reg pendF pendR]; rewrite ?Hr; tauto.
